@@ -69,11 +69,18 @@ Definition is_conclusion (o : cap_out) : bool :=
 (* The history of acknowledgements and deletions, flattened to one operation per token. *)
 Inductive cap_op := OpAdd (k : str) | OpRem (k : str).
 
-(* meaning of one token of an ACK list.  CURRENT girc: every token, "-name" included, is
-   recorded as an enabled capability (finding ack-removal-ignored).  With the proposed
-   fix this becomes
-     match tok with 45 :: name => [OpRem name] | _ => [OpAdd tok] end. *)
-Definition ack_ops (tok : str) : list cap_op := [OpAdd tok].
+(* Meaning of one token of an ACK list.  IRCv3: "name" acknowledges that the capability is
+   enabled, "-name" that it has been disabled.  CURRENT girc records every token, "-name"
+   included, as an enabled capability and removes nothing (finding ack-removal-ignored):
+   ack_removal_aware = false.  With notes/proposed-fixes/cap-ack-removal.diff applied to
+   /repo this flag becomes true (and Model/Cap.v ack_step takes the removal branch); every
+   theorem below is proven for both values. *)
+Definition ack_removal_aware : bool := false.
+
+Definition ack_ops (tok : str) : list cap_op :=
+  if ack_removal_aware then
+    match ack_removed tok with Some name => [OpRem name] | None => [OpAdd tok] end
+  else [OpAdd tok].
 
 Definition event_ops (ps : list str) : list cap_op :=
   if is_del ps then List.map (fun tok => OpRem (cap_token_name tok)) (cap_tokens ps)
@@ -90,6 +97,24 @@ Definition enabled_by (ops : list cap_op) (k : str) : Prop :=
 (* event-level reading *)
 Definition adds (i : cap_in) (k : str) : Prop := In (OpAdd k) (event_ops (in_params i)).
 Definition removes (i : cap_in) (k : str) : Prop := In (OpRem k) (event_ops (in_params i)).
+
+(* the line ps acknowledges k as enabled: an ACK whose list has the token k (and, when
+   removals are understood, k is not itself a removal and no "-k" follows it on the line) *)
+Definition acked_by (ps : list str) (k : str) : Prop :=
+  is_ack ps = true /\
+  exists pre post, cap_tokens ps = pre ++ k :: post /\
+    (ack_removal_aware = true -> ack_removed k = None /\ ~ In (45 :: k) post).
+
+(* the line ps takes k away: a DEL naming it, or (removal-aware) an ACK listing "-k" *)
+Definition removed_by (ps : list str) (k : str) : Prop :=
+  (is_del ps = true /\ In k (List.map cap_token_name (cap_tokens ps))) \/
+  (ack_removal_aware = true /\ is_ack ps = true /\ In (45 :: k) (cap_tokens ps)).
+
+(* the server never acknowledges a removal (it has no reason to: girc never sends
+   CAP REQ :-name by itself) *)
+Definition no_removal_acks (h : list cap_in) : Prop :=
+  forall i t, In i h -> is_ack (in_params i) = true -> In t (cap_tokens (in_params i)) ->
+              ack_removed t = None.
 
 (* ---- order hypothesis -------------------------------------------------------- *)
 (* Go's map iteration yields each key of tmpCap once, in some order. Safety needs only
